@@ -177,6 +177,7 @@ def check(ctx: Ctx) -> None:
     ctx.floor("pieces of the sorted insertion decided", bisect_rule(ctx, "ABS-SORTED"), 1)
     from ..engines.structure import message_type_order_rule
     message_type_order_rule(ctx, "ABS-SORTED")
+    order_rule(ctx)
 
 
 def _judge(ctx: Ctx, file, fi, label, exits, problems, rule_exit="TS1"):
@@ -210,6 +211,73 @@ def conversions(ctx: Ctx) -> None:
     p = ctx.p
     from ..engines.structure import conversion_structure
     conversion_structure(ctx)
+
+
+def order_rule(ctx: Ctx) -> None:
+    p = ctx.p
+    eng = TypestateEngine(p, "Sequence")
+    ci = eng.ci
+    methods = [m for m, fi in ci.methods.items() if not fi.is_static]
+    # ---- TS-ORDER: the other view is invalidated *after* the in-place change of a view, on every path.  Invalidating first gives the
+    # same exit state on paper, but the changing routine may read the other view of the very same object while it runs (`scale` with the
+    # sequence as its own `meta_sequence` splits into bars, which reads `.abs`): that read regenerates the other view from the not yet
+    # changed one and marks it fresh, and nothing invalidates it afterwards.
+    from ..engines.effects import Effects
+    from ..engines.mustflow import MustFollow
+    from ..astutil import call_method
+    eff = Effects(p)
+    view_cls = {"abs": "AbsoluteSequence", "rel": "RelativeSequence"}
+    n_order = 0
+    for m in methods:
+        fi = ci.methods[m]
+        if m in PRIMITIVES or m in ("abs", "rel", "refresh", "__init__") or fi.is_generator:
+            continue
+        alias = {}
+        for a in ast.walk(fi.node):
+            if isinstance(a, ast.Assign) and len(a.targets) == 1 and isinstance(a.targets[0], ast.Name) and attr_chain(a.value) in (["self", "abs"], ["self", "rel"]):
+                alias[a.targets[0].id] = a.value.attr
+
+        def changed_view(c):
+            """'abs' / 'rel' when `c` is a call that changes that view of self in place, else None"""
+            if not isinstance(c, ast.Call):
+                return None
+            recv, name = call_method(c)
+            v = None
+            if attr_chain(recv) in (["self", "abs"], ["self", "rel"]):
+                v = recv.attr
+            elif isinstance(recv, ast.Name) and recv.id in alias:
+                v = alias[recv.id]
+            if v is None or name is None:
+                return None
+            return v if eff.classify(view_cls[v], name) == "MUTATE" else None
+        for v in ("abs", "rel"):
+            o = "rel" if v == "abs" else "abs"
+
+            def trigger(n, v=v):
+                return isinstance(n, ast.stmt) and not isinstance(n, (ast.If, ast.For, ast.While, ast.Try, ast.With, ast.FunctionDef)) \
+                    and any(changed_view(c) == v for c in ast.walk(n))
+
+            def discharge(n, o=o):
+                if isinstance(n, ast.Call):
+                    recv, name = call_method(n)
+                    if isinstance(recv, ast.Name) and recv.id == "self" and name == f"invalidate_{o}":
+                        return True
+                    # a method of the sequence that itself ends with the other view invalidated or rebuilt (normalise, quantise_and_normalise, ...)
+                    if isinstance(recv, ast.Name) and recv.id == "self" and name in ci.methods and name not in ("abs", "rel") and name not in PRIMITIVES:
+                        return any(isinstance(x, ast.Call) and call_method(x)[1] == f"invalidate_{o}" for x in ast.walk(ci.methods[name].node))
+                if isinstance(n, ast.Assign) and any(attr_chain(t) == ["self", f"_{o}_stale"] for t in n.targets) and isinstance(n.value, ast.Constant) and n.value.value is True:
+                    return True
+                return False
+            sites = [st for st in ast.walk(fi.node) if trigger(st)]
+            if not sites:
+                continue
+            n_order += len(sites)
+            pending = MustFollow(trigger, discharge).run(fi.node)
+            ctx.check(not pending, "TS-ORDER", f"{m}: the {o} view is invalidated after the in-place change of the {v} view ({len(sites)} site(s))", function=fi.qualname,
+                      construct=f"the {o} view is not invalidated after the {v} view was changed in place",
+                      message=f"`{short(pending[0][1], 70) if pending else ''}` is not followed by `self.invalidate_{o}()` on some path: an invalidation placed before the change "
+                              f"does not cover a read of the {o} view made while the change runs", file=fi.file, node=pending[0][1] if pending else fi.node)
+    ctx.floor("in-place changes of a view in Sequence's mutators (TS-ORDER)", n_order, 10)
 
 
 def thorough(ctx: Ctx) -> None:
